@@ -156,17 +156,17 @@ theorem len_oracleSegments (cs : Contours) (ls : List Path) :
   intro e _
   exact len_segIvs cs e.1 e.2
 
-/-- **C14, length clause.** Under the segment form of the CLIPLINE contract, for a simple line in
+/-- (one clipper call with subject paths `s`) Under the segment form of the CLIPLINE contract, for a simple line in
 general position w.r.t. a valid polygon, in every case (trivial ones included): the total length of
 `L.Clip(P)` is the oracle's length of `L ∩ P`. -/
-theorem C14_length (core : ClipCore) (hline : ClipLineSegsSpec core.line) (L : Lines) (arg : Operand)
-    (hs : simplePaths L.paths = true) (hv : validC (toContours arg) = true)
-    (hg : gpLine L.paths (toContours arg) = true) :
-    totalLen (clip core L arg) = oracleLength (toContours arg) L.paths := by
-  by_cases ht : trivialCase L.paths (toContours arg) = true
-  · obtain ⟨hc, hno⟩ := C14_trivial core L arg ht
+theorem lengthS (core : ClipCore) (hline : ClipLineSegsSpec core.line) (s : List Path) (arg : Operand)
+    (hs : simplePaths s = true) (hv : validC (toContours arg) = true)
+    (hg : gpLine s (toContours arg) = true) :
+    totalLen (clipS core s arg) = oracleLength (toContours arg) s := by
+  by_cases ht : trivialCase s (toContours arg) = true
+  · obtain ⟨hc, hno⟩ := trivialS core s arg ht
     rw [hc]
-    have hz : ∀ l ∈ L.paths, ∀ e ∈ pairs l, oracleSeg (toContours arg) e.1 e.2 = [] := by
+    have hz : ∀ l ∈ s, ∀ e ∈ pairs l, oracleSeg (toContours arg) e.1 e.2 = [] := by
       intro l hl e he
       cases hO : oracleSeg (toContours arg) e.1 e.2 with
       | nil => rfl
@@ -180,7 +180,7 @@ theorem C14_length (core : ClipCore) (hline : ClipLineSegsSpec core.line) (L : L
         refine hno (pointAt e.1 e.2 ((iv.1 + iv.2) / 2)) ⟨?_, by simp [insideClosedC, hin]⟩
         simp only [onPaths, onPath, List.any_eq_true]
         exact ⟨l, hl, e, he, hon⟩
-    have : oracleLength (toContours arg) L.paths = 0 := by
+    have : oracleLength (toContours arg) s = 0 := by
       simp only [oracleLength]
       apply List.sum_eq_zero
       intro x hx
@@ -192,16 +192,43 @@ theorem C14_length (core : ClipCore) (hline : ClipLineSegsSpec core.line) (L : L
       obtain ⟨e, he, rfl⟩ := hy
       rw [hz l hl e he]; simp [ivSum]
     rw [this]; simp [totalLen, segsOf]
-  · have hne : L.paths ≠ [] ∧ toContours arg ≠ [] ∧ overlaps (bbox L.paths) (bbox (toContours arg)) = true := by
+  · have hne : s ≠ [] ∧ toContours arg ≠ [] ∧ overlaps (bbox s) (bbox (toContours arg)) = true := by
       simp only [trivialCase, Bool.or_eq_true, not_or, Bool.not_eq_true, Bool.not_eq_eq_eq_not, Bool.not_not,
         Bool.not_false] at ht
       refine ⟨?_, ?_, ?_⟩
       · intro e; rw [e] at ht; simp at ht
       · intro e; rw [e] at ht; simp at ht
       · simpa using ht.2
-    have hse := hline L.paths (toContours arg) hne.1 hne.2.1 hne.2.2 hs hv hg
-    rw [C14_glue]
+    have hse := hline s (toContours arg) hne.1 hne.2.1 hne.2.2 hs hv hg
+    rw [glueS]
     simp only [ht, Bool.false_eq_true, if_false]
     rw [totalLen, sum_of_segsEquiv hse, len_oracleSegments]
+
+theorem totalLen_append (a b : List Path) : totalLen (a ++ b) = totalLen a + totalLen b := by
+  simp [totalLen, segsOf, List.flatMap_append]
+
+theorem oracleLength_cons (cs : Contours) (l : Path) (ls : List Path) :
+    oracleLength cs (l :: ls) = oracleLength cs [l] + oracleLength cs ls := by
+  simp [oracleLength]
+
+/-- **C14, length clause.** Under the segment form of the CLIPLINE contract, for a simple line (or
+network of lines) in general position w.r.t. a valid polygon, in every case (trivial ones included):
+the total length of `L.Clip(P)` is the oracle's length of `L ∩ P`. -/
+theorem C14_length (core : ClipCore) (hline : ClipLineSegsSpec core.line) (L : Lines) (arg : Operand)
+    (hs : simplePaths L.paths = true) (hv : validC (toContours arg) = true)
+    (hg : gpLine L.paths (toContours arg) = true) :
+    totalLen (clip core L arg) = oracleLength (toContours arg) L.paths := by
+  rw [clip_eq]
+  have key : ∀ ls : List Path, (∀ l ∈ ls, l ∈ L.paths) →
+      totalLen (ls.flatMap fun l => clipS core [l] arg) = oracleLength (toContours arg) ls := by
+    intro ls
+    induction ls with
+    | nil => intro _; simp [totalLen, segsOf, oracleLength]
+    | cons l ls ih =>
+      intro hmem
+      have hl : l ∈ L.paths := hmem l (by simp)
+      rw [List.flatMap_cons, totalLen_append, oracleLength_cons, ih (fun x hx => hmem x (by simp [hx])),
+        lengthS core hline [l] arg (simplePaths_single _ hs l hl) hv (gpLine_single _ _ hg l hl)]
+  exact key L.paths (fun l hl => hl)
 
 end GeomV.C14
